@@ -21,7 +21,7 @@ def heap_conf(name, nq, nt, rule, extra_trusted=()):
     return {
         "n": {"quick": nq, "thorough": nt},
         "per_shard": 60,
-        "run_header": "From Anytype Require Import Base FloatBits Value Heap RunCommon RunHeap.\nLocal Open Scope Z_scope.\n",
+        "run_header": "From Anytype Require Import Base FloatBits Value Heap Slice RunCommon RunHeap.\nLocal Open Scope Z_scope.\n",
         "run_check": "heap_check",
         "run_show": "(fun c => heap_model (fst c))",
         "mismatch_is_input": True,
@@ -30,6 +30,13 @@ def heap_conf(name, nq, nt, rule, extra_trusted=()):
         "assumptions": ["containers are acyclic (the generator never nests a container into something reachable from it)",
                         "single goroutine"],
     }
+
+def heap_slice_conf(name, nq, nt, rule):
+    c = heap_conf(name, nq, nt, rule + "; every third case is a slice-level program (list-only operations on up to 6 lists of scalars with growth "
+                  "histories) whose visible contents after every step are reproduced by the backing-array model under two growth policies (exact-fit and doubling)")
+    c["run_check"] = "heap_or_slice_check"
+    c["run_show"] = "heap_or_slice_model"
+    return c
 
 PROPS = {
     "C18": {
@@ -86,7 +93,7 @@ PROPS = {
                     "(C17_unique_*); sort.Float64s on NaN-free input orders by the sign-magnitude key"],
         "assumptions": ["float lists are NaN-free (as the property states)"],
     },
-    "C05": heap_conf("C05", 1200, 60000,
+    "C05": heap_slice_conf("C05", 1200, 60000,
         "programs of 8-35 operations over up to 8 live lists/objects nested acyclically; list-centric op mix (Add bursts, Insert/Replace/Delete/"
         "SubList/Get with boundary arguments -n-1..n+1, Pop, Clear, Reverse, Sort inside C17's domain, Concat, typed getters, Contains/IndexOf, "
         "Slice), growth histories leaving spare capacity; after EVERY step the outcome and the canonical hash of the whole reachable heap are compared; "
@@ -98,7 +105,7 @@ PROPS = {
     "C08": heap_conf("C08", 1000, 50000,
         "random DAG-shaped heaps (shared sub-containers), Clone of a random container, Equals, then 2-11 mutations (methods and tree-form writes) "
         "at random nodes of either side, checking after each that the other side is unchanged; outcome and canonical heap hash after every step"),
-    "C09": heap_conf("C09", 1500, 80000,
+    "C09": heap_slice_conf("C09", 1500, 80000,
         "receiver list with a growth history (Add burst then Pop/Delete: spare capacity 0..many) -> one or two derivations (Concat, SubList, Merge, "
         "Keys, Values) -> 2-9 mutations of any participant (receiver, argument, result, second result); outcome and canonical heap hash after every step"),
     "C10": heap_conf("C10", 800, 40000,
